@@ -42,11 +42,21 @@ def round_trace(run, lp):
                milkYield=num(inp["milk_yield"]), addMilk=inp["add_milk"], addMeat=lp["consts"]["add"]["meat"],
                kg=dict(chicken=num(inp["kg_meat_per_chicken"]), pig=num(inp["kg_meat_per_pig"]), large=num(inp["kg_meat_per_large_animal"])))]
     feed_charged = s["feed"] if lp["kind"] == "H" else s["max_feed"]
+    # what the feed-maximising round allocated to feed each month (billion kcal), from its solution
+    lp2 = [x for x in run["lps"] if x["round"] == 2]
+    if lp2:
+        v2 = lp2[0]["vars"]
+        kc2 = lp2[0]["consts"]["seaweed"]["kcals"]
+        feed_round2 = [v2["stored_food_feed"][m] + v2["crops_food_feed"][m] + v2["methane_scp_feed"][m] + v2["cellulosic_sugar_feed"][m]
+                       + v2["seaweed_feed"][m] * kc2 for m in range(n)]
+    else:
+        feed_round2 = [0.0] * n
     for m in range(n):
         sl = [dict(**{"class": meat_class(sp["type"], sp["size"])}, head=num(sp["slaughter"][m], 1e6)) for sp in h["species"]]
         mp = [num(sp["population"][m]) for sp in h["species"] if sp["milk"]]
         ev.append(dict(ev="Month", m=m, sl=sl, milkPop=mp, meat=num(s["meat"][m]), milk=num(s["milk"][m], 1e-6),
-                       feedCharged=num(feed_charged[m]), feedEaten=num(h["feed_used"][m]), grassEaten=num(h["grass_used"][m]),
+                       feedCharged=num(feed_charged[m]), feedEaten=num(h["feed_used"][m]),
+                       feedOffered=num(h["feed_avail"][m]), feedRound2=num(feed_round2[m]), grassEaten=num(h["grass_used"][m]),
                        grass=num(h["grass_avail"][m])))
     ev.append(dict(ev="End"))
     return dict(hdr=dict(cc=run["job"]["cc"], preset=run["job"]["preset"], round=lp["round"], kind=lp["kind"], herd_tag=h["tag"],
